@@ -61,6 +61,14 @@ func (p *Processor) OnColumn(ctx context.Context, data []byte) (context.Context,
 		return base.MarkNotDecryptedContext(ctx), p.rawData, nil
 	}
 
+	if p.hashData != nil || base.IsDecryptedFromContext(ctx) {
+		// This is the pass after decryption (the processor is subscribed before and after the
+		// decryptor): data is plaintext now. The hash taken off before decryption, if any, has just
+		// been verified by Process; the plaintext itself must not be searched for a hash, otherwise
+		// a plaintext that starts with a hash-shaped prefix followed by an envelope loses its first bytes.
+		p.hashData = nil
+		return ctx, data, nil
+	}
 	p.matchedHash = ExtractHash(data)
 	if p.matchedHash == nil {
 		p.hashData = nil
